@@ -46,7 +46,7 @@ func has(fs []string, f string) bool {
 
 // region: the first known-risk construct the document uses (predicate over the generated case)
 func region(cs Case) string {
-	for _, f := range []string{"enum-member", "uint64>=2^63", "null-member", "empty-object", "empty-array", "unknown-member"} {
+	for _, f := range []string{"enum-member", "uint64>=2^63", "null-member", "null-map-value", "empty-object", "empty-array", "unknown-member"} {
 		if has(cs.Features, f) {
 			return f
 		}
@@ -251,11 +251,42 @@ func (g *gen) value(fd protoreflect.FieldDescriptor, v protoreflect.Value, depth
 			g.f("empty-object")
 		}
 		g.f("map-key:" + fd.MapKey().Kind().String())
+		// entries whose value is null denote nothing (like null members): keys the map does not hold, at drawn positions
+		nullAt := map[int]int{}
+		if g.nulls && rapid.IntRange(0, 2).Draw(g.t, "nullEntries") == 0 {
+			for j, n := 0, rapid.IntRange(1, 2).Draw(g.t, "nNullEntries"); j < n; j++ {
+				nullAt[rapid.IntRange(0, len(ents)).Draw(g.t, "nullEntryPos")]++
+			}
+			g.f("null-map-value")
+		}
+		nullKeys := 0
+		first := true
+		nullEntries := func(pos int) {
+			for j := 0; j < nullAt[pos]; j++ {
+				if !first {
+					g.w.Raw(",")
+				}
+				first = false
+				g.w.WS()
+				if fd.MapKey().Kind() == protoreflect.StringKind {
+					g.w.Str(fmt.Sprintf("\x00null-entry-%d", nullKeys))
+				} else {
+					g.w.Str(strconv.Itoa(2000000000 + nullKeys))
+				}
+				nullKeys++
+				g.w.WS()
+				g.w.Raw(":")
+				g.w.WS()
+				g.w.Null()
+			}
+		}
 		g.w.Raw("{")
 		for i, en := range ents {
-			if i > 0 {
+			nullEntries(i)
+			if !first {
 				g.w.Raw(",")
 			}
+			first = false
 			g.w.WS()
 			g.w.Str(keyText(fd.MapKey(), en.k))
 			g.w.WS()
@@ -269,6 +300,7 @@ func (g *gen) value(fd protoreflect.FieldDescriptor, v protoreflect.Value, depth
 				g.scalar(fd.MapValue(), en.v)
 			}
 		}
+		nullEntries(len(ents))
 		g.w.WS()
 		g.w.Raw("}")
 	case fd.IsList():
@@ -402,7 +434,7 @@ func (g *gen) message(m protoreflect.Message, depth int) {
 
 var Prop = pbt.Register(pbt.Prop[Case]{
 	Name: "TestJSONToProto",
-	Rule: "generated proto3 schema + reference message rendered as JSON (members in drawn order, keyed by field name or JSON name, whitespace / escape / float spelling variants, null members for unset fields, unknown members with scalar/array/object values, nested message sizes padded to 126..129 / 16382..16385); j2p output must be accepted by protobuf-go and proto.Equal to the message; a member with a wrong-kind value must yield an error; unknown member + DisallowUnknownField => ErrUnknownField; non-trivial = nesting >= 2 and a length-delimited payload >= 128 bytes",
+	Rule: "generated proto3 schema + reference message rendered as JSON (members in drawn order, keyed by field name or JSON name, whitespace / escape / float spelling variants, null members for unset fields, map entries with a null value (denoting nothing), unknown members with scalar/array/object values, nested message sizes padded to 126..129 / 16382..16385); j2p output must be accepted by protobuf-go and proto.Equal to the message; a member with a wrong-kind value must yield an error; unknown member + DisallowUnknownField => ErrUnknownField; non-trivial = nesting >= 2 and a length-delimited payload >= 128 bytes",
 	Gen: func(t *rapid.T) Case {
 		sc := pmodel.GenSchema(t, pmodel.GenOpts{AllKinds: rapid.IntRange(0, 3).Draw(t, "allKinds") == 0, KeyKinds: pmodel.SupportedKeyKinds})
 		comp, err := pmodel.Compile(sc.Render(), sc.Main)
